@@ -62,6 +62,8 @@ def run_universe_chunk(tier: str, start: int, t: Tally) -> List[Violation]:
         if mod is not None:
             from vf.core.descmatch import class_name
             for m in others:
+                if m.name.startswith("TNR"):
+                    continue  # hand-written classes that deliberately do NOT use the plugin's field names
                 gen = getattr(mod, class_name([m.name]), None)
                 direct = getattr(u.bp, m.name)
                 if gen is None:
